@@ -78,23 +78,24 @@ type Exec struct {
 	curInstr  ssa.Instruction
 	overflow  bool
 
-	freeVarRefs   []fvRef
-	dropped       map[string]bool
-	globalsRead   map[string]bool
-	assumptions   map[string]bool
-	axiomsUsed    map[string]bool
-	pureExt       map[string]bool
-	usedContracts map[string]bool
-	matchedCalls  map[string]bool
-	pureFuncs     map[string]bool
-	mergingSnap   bool
-	escaped       map[*ssa.Alloc]bool
-	freshBytes    map[string]bool
-	detExt        map[string]bool
-	preludeText   string
-	labels        map[string]*State
-	exit          *State
-	bvN           int
+	freeVarRefs    []fvRef
+	dropped        map[string]bool
+	globalsRead    map[string]bool
+	assumptions    map[string]bool
+	axiomsUsed     map[string]bool
+	pureExt        map[string]bool
+	usedContracts  map[string]bool
+	matchedCalls   map[string]bool
+	pureFuncs      map[string]bool
+	mergingSnap    bool
+	skippedEnsures map[string]bool
+	escaped        map[*ssa.Alloc]bool
+	freshBytes     map[string]bool
+	detExt         map[string]bool
+	preludeText    string
+	labels         map[string]*State
+	exit           *State
+	bvN            int
 }
 
 func (x *Exec) initMaps() {
@@ -106,6 +107,7 @@ func (x *Exec) initMaps() {
 	x.usedContracts = map[string]bool{}
 	x.matchedCalls = map[string]bool{}
 	x.pureFuncs = map[string]bool{}
+	x.skippedEnsures = map[string]bool{}
 	x.escaped = map[*ssa.Alloc]bool{}
 	x.freshBytes = map[string]bool{}
 	x.detExt = map[string]bool{}
@@ -128,13 +130,13 @@ type loopInfo struct {
 	ord    int
 	spec   *LoopSpec
 	// write set
-	cells   map[*ssa.Alloc]bool
-	heap    map[string]bool
-	heapAll bool
-	iters   map[*ssa.Range]bool
-	ghosts  map[string]bool
-	preSt   *State
-	dec0    *Term
+	cells    map[*ssa.Alloc]bool
+	heap     map[string]bool
+	heapAll  bool
+	iters    map[*ssa.Range]bool
+	ghosts   map[string]bool
+	preSt    *State
+	dec0     *Term
 	fresh    map[string]bool
 	mapOps   []mapOp
 	callMods []callMod
@@ -525,6 +527,8 @@ func (x *Exec) run() (err error) {
 		}
 		st.ghost[name] = x.havocSpec(ty, "ghost."+name)
 	}
+	st.ghost["$perm"] = &Val{K: VScalar, T: x.D.fresh("perm0", arr(SInt, SInt))}
+	st.ghost["$perminv"] = &Val{K: VScalar, T: x.D.fresh("perminv0", arr(SInt, SInt))}
 	if x.fc != nil && x.fc.Monitor == "locked" {
 		st.ghost["$heldW"] = scalar(tTrue, nil)
 		st.ghost["$heldR"] = scalar(tTrue, nil)
